@@ -1033,7 +1033,8 @@ size_t derTPSTRDec(char* val, size_t* len, const octet der[], size_t count,
 	for (pos = 0; pos < l; ++pos)
 	{
 		register char ch = (char)v[pos];
-		if ((ch < '0' || ch > '9') &&
+		if (ch == 0 ||
+			(ch < '0' || ch > '9') &&
 			(ch < 'A' || ch > 'Z') &&
 			(ch < 'a' || ch > 'z') &&
 			strchr(" '()+,-./:=?", ch) == 0)
